@@ -242,6 +242,21 @@ def rule_accum(ctx, py):
     # a plain store is the first occurrence of a label: it must stand under the test that the label is new
     ctx.check(len(acc) == 1 and len(plain) <= 1, R, acc[0] if acc else g, f._qual, "repeated label: %s" % (
               pyfe.src(acc[0]) if acc else "-"), "repeats are summed", "a repeated species overwrites instead of accumulating")
+    # a side is empty only when it is blank: every text the side / its terms are compared with is the empty string.  A word that
+    # stands for "nothing" ("0", a symbol) is a possible species label, and a bare number is a term that must be rejected or read
+    words = []
+    for c_ in ast.walk(g):
+        if isinstance(c_, ast.Compare):
+            for x in [c_.left] + list(c_.comparators):
+                els = x.elts if isinstance(x, (ast.List, ast.Tuple, ast.Set)) else [x]
+                for e_ in els:
+                    if isinstance(e_, ast.Constant) and isinstance(e_.value, str):
+                        words.append((c_, e_.value))
+    bad_w = [(c_, w_) for c_, w_ in words if w_.strip() != ""]
+    ctx.check(not bad_w, R, bad_w[0][0] if bad_w else g, f._qual, "a side is compared with the empty text only (%d comparisons)" %
+              len(words), "blank means empty, every other text is a term", "a side equal to %r is read as empty: a species "
+              "carrying that label disappears from the reaction, `%s -> A` no longer names a reactant" % (
+                  bad_w[0][1] if bad_w else "", bad_w[0][1] if bad_w else ""))
     sides = [n for n in ast.walk(f) if isinstance(n, ast.Assign) and pyfe.src(n.targets[0]) in
              ("self._substrates", "self._products")]
     got = {pyfe.src(n.targets[0]): pyfe.src(n.value) for n in sides}
